@@ -10,7 +10,6 @@ EXPLANATION = ("K5 value lemmas on the real bodies of the 21 macro-generated _CP
 ASSUMPTIONS = [
     "bounded: compositions of at most 3 (quick) / 5 (thorough) elements - reported as bounded, not as proof",
     "assumed contract of CompoundParser / GetCompoundDataNISTByName: NULL or a fresh composition with positive finite mass fractions (C07, C15)",
-    "Refractive_Index_Re treats f' == 0 exactly as a failing element (as the code does); such a value cannot be told apart from a failure through the return value",
 ]
 CP = ["CS_Total", "CS_Photo", "CS_Rayl", "CS_Compt", "CSb_Total", "CSb_Photo", "CSb_Rayl", "CSb_Compt", "CS_Energy",
       "CS_Photo_Total", "CSb_Photo_Total", "CS_Total_Kissel", "CSb_Total_Kissel", "DCS_Rayl", "DCS_Compt", "DCSb_Rayl",
